@@ -102,6 +102,8 @@ type compPlan struct {
 	FailConsume  bool
 	// status reports issued from inside Start (C11)
 	StartReports []componentstatus.Status
+	// status reports issued from inside Shutdown (C11): the service has reported Stopping for the instance by then
+	ShutdownReports []componentstatus.Status
 	// watcher extension hooks that fail (C10). The property speaks of components' Start and Shutdown, not of these hooks:
 	// whether the service passes such an error on is not judged, only that everything is still started at most once and
 	// shut down exactly once, in order
@@ -126,6 +128,8 @@ type World struct {
 	gate        *simkit.Gate
 	recvs       map[string]*stubReceiver // key
 	hosts       map[string]component.Host
+	// shutdownReported: instance key -> statuses its component reported from inside Shutdown (C11)
+	shutdownReported map[string][]componentstatus.Status
 	shared      *sharedcomponent.Map[component.ID, *stubShared]
 	statusLog   []string
 	onConsume   func(comp string, sig string, payload any) // optional tap (C06 graph mode)
@@ -243,6 +247,19 @@ func (b *stubBase) Shutdown(ctx context.Context) error {
 	b.w.emit("shutdown", b.k(), b.gen, "")
 	if p.ParkShutdown {
 		b.w.gate.Park("shutdown:" + b.k())
+	}
+	for _, st := range p.ShutdownReports {
+		if b.host != nil {
+			componentstatus.ReportStatus(b.host, componentstatus.NewEvent(st))
+			if hw, ok := b.host.(*graph.HostWrapper); ok && hw.InstanceID != nil {
+				b.w.mu.Lock()
+				if b.w.shutdownReported == nil {
+					b.w.shutdownReported = map[string][]componentstatus.Status{}
+				}
+				b.w.shutdownReported[instKey(hw.InstanceID)] = append(b.w.shutdownReported[instKey(hw.InstanceID)], st)
+				b.w.mu.Unlock()
+			}
+		}
 	}
 	b.live = false
 	if p.FailShutdown {
